@@ -1248,6 +1248,25 @@ where
             )
         })?;
 
+        // A subscription is only as good as the fabric it was accepted on: drop the
+        // resumed subscriptions whose fabric is not in the fabric table (loaded by
+        // `Matter::startup`, which is to be called first) - e.g. those of a
+        // commissioning that was not completed before the restart. Left to the
+        // reporter, they would be dropped only at its first run, and not at all if
+        // another fabric had got the same local index by then.
+        let removed = self
+            .state
+            .subscriptions
+            .remove(&self.subscriptions_buffers, |sub| {
+                self.matter
+                    .with_state(|state| state.fabrics.get(sub.ids().fab_idx).is_none())
+                    .then_some("fabric removed")
+            });
+
+        if removed {
+            self.persist_subscriptions();
+        }
+
         // Wake the reporter so it accounts for the resumed subscriptions'
         // liveness deadlines.
         self.state.subscriptions.notification.notify();
